@@ -5,7 +5,8 @@
       pointers (root 20) ["/a/1/b~0", "/c~1d", "/a/2", "a"]     string nodes 21-24, valuestring blocks 201-204
     allocator pointer 1000. *)
 From CJ Require Import Base Dbl Heap Forest ForestLemmas CoreDefs CoreRefineFrame CoreRefineDupValue CoreLedgerGen.
-From CJ Require Import TierBridgeDefs MergeHeapDefs MergeHeapInv MergeHeapEx PatchHeapDefs PatchHeapPath PatchHeapPointer PatchHeapStr PatchHeapSteps PatchHeapDetach.
+From CJ Require Import TierBridgeDefs MergeHeapDefs MergeHeapInv MergeHeapEx PatchHeapDefs PatchHeapPath PatchHeapPointer PatchHeapStr PatchHeapSteps PatchHeapDetach
+  PatchHeapApplyDefs PatchHeapOps PatchHeapFinish PatchHeapApply.
 From CJ Require Tree PointerDefs PatchDefs CoreOps.
 From CJ.gen Require Import Constants.
 From stdpp Require Import gmap.
@@ -128,4 +129,115 @@ Proof.
   replace (Ok (Some (px_num 5 (Some [98; 126]), px_doc1))) with
     (PatchDefs.detach_path (reify (h_str px_heap) px_doc) (cstr [47; 97; 47; 49; 47; 98; 126; 48; 0]) true); [exact Hpost|].
   vm_compute. reflexivity.
+Qed.
+
+(** * stages 3 and 4: apply_patch for remove, add, replace, copy, move *)
+
+(** a value as a forest tree: identities and string blocks handed out in preorder from [nx] *)
+Fixpoint enc (n : Tree.node) (nx : positive) : tree * list (positive * bytes) * positive :=
+  match n with
+  | Tree.Node ty vs vi vd k cs =>
+    let id := nx in
+    let nx1 := Pos.succ nx in
+    let '(vsp, strs1, nx2) := match vs with Some s => (Some nx1, [(nx1, s ++ [0])], Pos.succ nx1) | None => (None, [], nx1) end in
+    let '(kp, strs2, nx3) := match k with Some s => (Some nx2, [(nx2, s ++ [0])], Pos.succ nx2) | None => (None, [], nx2) end in
+    let '(cs', strs3, nx4) :=
+      (fix go (l : list Tree.node) (nx : positive) : list tree * list (positive * bytes) * positive :=
+         match l with
+         | [] => ([], [], nx)
+         | c :: r => let '(c', s1, n1) := enc c nx in let '(r', s2, n2) := go r n1 in (c' :: r', s1 ++ s2, n2)
+         end) cs nx3 in
+    (T id (mkRD ty vsp vi vd kp None) cs', strs1 ++ strs2 ++ strs3, nx4)
+  end.
+
+Definition vN (ty : Z) vs vi k cs := Tree.Node ty vs vi (dbl_of_int vi) k cs.
+Definition vnum v k := vN c_cJSON_Number None v k [].
+Definition vstr (s : bytes) k := vN c_cJSON_String (Some s) 0 k [].
+Definition vobj k cs := vN c_cJSON_Object None 0 k cs.
+Definition varr k cs := vN c_cJSON_Array None 0 k cs.
+(** document {"a":[1,2],"b":{"c":3}} *)
+Definition pa_doc_v : Tree.node :=
+  vobj None [varr (Some [97]) [vnum 1 None; vnum 2 None]; vobj (Some [98]) [vnum 3 (Some [99])]].
+Definition pa_op (o p : bytes) (extra : list Tree.node) : Tree.node :=
+  vobj None ([vstr o (Some PatchDefs.s_op); vstr p (Some PatchDefs.s_path)] ++ extra).
+(** the operations, each applied to the ORIGINAL document below *)
+Definition pa_ops : list Tree.node :=
+  [ pa_op PatchDefs.s_add [47;97;47;49] [vnum 9 (Some PatchDefs.s_value)];                 (* 0: add /a/1 9 *)
+    pa_op PatchDefs.s_remove [47;98;47;99] [];                                              (* 1: remove /b/c *)
+    pa_op PatchDefs.s_replace [47;97;47;48] [vstr [120] (Some PatchDefs.s_value)];          (* 2: replace /a/0 "x" *)
+    pa_op PatchDefs.s_move [47;97;47;45] [vstr [47;98] (Some PatchDefs.s_from)];            (* 3: move /b to /a/- *)
+    pa_op PatchDefs.s_copy [47;100] [vstr [47;97;47;48] (Some PatchDefs.s_from)];           (* 4: copy /a/0 to /d *)
+    pa_op PatchDefs.s_replace [47;97;47;48] [];                                             (* 5: replace /a/0 without value: status 7 *)
+    pa_op PatchDefs.s_add [47;97;47;57] [vnum 7 (Some PatchDefs.s_value)];                  (* 6: add /a/9: status 10 *)
+    pa_op PatchDefs.s_add [] [varr (Some PatchDefs.s_value) [vnum 5 None]];                 (* 7: add "" [5]: the root *)
+    pa_op PatchDefs.s_add [47;98;47;99] [vstr [121] (Some PatchDefs.s_value)];              (* 8: add /b/c "y": existing member *)
+    pa_op PatchDefs.s_move [47;98;47;120] [vstr [47;98] (Some PatchDefs.s_from)] ].         (* 9: move /b to /b/x: status 9 *)
+Definition pa_patches_v : Tree.node := varr None pa_ops.
+Definition pa_e1 := enc pa_doc_v 1.
+Definition pa_e2 := enc pa_patches_v (pa_e1.2).
+Definition pa_doc : tree := pa_e1.1.1.
+Definition pa_patches : tree := pa_e2.1.1.
+Definition pa_G : forest := [pa_patches].
+Definition pa_St : gmap positive bytes := list_to_map (pa_e1.1.2 ++ pa_e2.1.2).
+Definition pa_heap : heap := heap_of_forest (pa_G ++ [pa_doc]) pa_St.
+Definition pa_pt (k : nat) : tree := default pa_doc (tchildren pa_patches !! k).
+
+Lemma pa_MInv : MInv pa_heap (pa_G ++ [pa_doc]).
+Proof. apply heap_of_forest_MInv; vm_compute; reflexivity. Qed.
+Lemma pa_reify : reify pa_St pa_doc = pa_doc_v /\ reify pa_St pa_patches = pa_patches_v.
+Proof. vm_compute. done. Qed.
+
+Definition pa_run (k : nat) : out (Z * heap) := apply_patch nofail (Some (tid pa_doc)) (Some (tid (pa_pt k))) true pa_heap.
+Definition pa_status (k : nat) : option Z := out_val (pa_run k).
+Definition pa_doc_after (k : nat) : option (option (Tree.node * bool)) :=
+  out_val (CoreOps.dump_node 50 (Some (tid pa_doc)) (out_heap (pa_run k) pa_heap)).
+Definition pa_model (k : nat) : Base.res (Z * Tree.node) :=
+  ' (st, d, _) <- PatchDefs.apply_patch pa_doc_v (default pa_doc_v (pa_ops !! k)) true ;; Ok (st, d).
+Definition pa_heap_result (k : nat) : option Z * option (option (Tree.node * bool)) := (pa_status k, pa_doc_after k).
+Definition pa_model_result (k : nat) : option Z * option (option (Tree.node * bool)) :=
+  match pa_model k with Ok (st, d) => (Some st, Some (Some (d, true))) | _ => (None, None) end.
+
+(** the heap-level code run on each operation: status and resulting document (read back by the structural walk,
+    links healthy) are those of the value-level model; statuses: 0 0 0 0 0 7 10 0 0 9 *)
+Lemma pa_runs :
+  map pa_heap_result (seq 0 10) = map pa_model_result (seq 0 10) /\
+  map pa_status (seq 0 10) = map Some [0; 0; 0; 0; 0; 7; 10; 0; 0; 9].
+Proof. vm_compute. done. Qed.
+
+(** the failing replace (operation 5) HAS removed the old value: the document is {"a":[2],"b":{"c":3}} — the
+    non-atomicity of DESIGN 11.6, in model and code alike *)
+Lemma pa_replace_not_atomic :
+  pa_status 5 = Some 7 /\
+  pa_doc_after 5 = Some (Some (vobj None [varr (Some [97]) [vnum 2 None]; vobj (Some [98]) [vnum 3 (Some [99])]], true)).
+Proof. vm_compute. done. Qed.
+
+(** the hypotheses of [apply_patch_refines] hold on this heap for every element of the patch array, and its
+    conclusion — including [NoLeak] of the result on the failing exits — is available for it *)
+Lemma pa_pt_node (k : nat) t : tchildren pa_patches !! k = Some t -> t ∈ nodes pa_G.
+Proof.
+  intros Hk. destruct pa_patches as [i d cs] eqn:E. cbn [tchildren] in Hk.
+  eapply (TierBridgeForest.child_in_nodes pa_G i d cs t).
+  - apply roots_in_nodes. unfold pa_G. rewrite E. by left.
+  - by eapply elem_of_list_lookup_2.
+Qed.
+
+Lemma pa_stage34 (k : nat) t :
+  tchildren pa_patches !! k = Some t ->
+  PatchDefs.decode_patch_operation (reify (h_str pa_heap) t) true <> Ok PatchDefs.TEST ->
+  MInv pa_heap (pa_G ++ [pa_doc]) /\ NoLeak pa_heap (pa_G ++ [pa_doc]) /\ t ∈ nodes pa_G /\
+  match PatchDefs.apply_patch (reify (h_str pa_heap) pa_doc) (reify (h_str pa_heap) t) true with
+  | Ok (st, doc', pt') =>
+      st <> 6 -> st <> 8 ->
+      exists h' docT,
+        apply_patch nofail (Some (tid pa_doc)) (Some (tid t)) true pa_heap = Ret (st, h') /\
+        MInv h' (pa_G ++ [docT]) /\ reify (h_str h') docT = doc' /\ NoLeak h' (pa_G ++ [docT])
+  | _ => True
+  end.
+Proof.
+  intros Hk Hnt. pose proof (pa_pt_node k t Hk) as Hn. split; [exact pa_MInv|]. split; [apply heap_of_forest_NoLeak|]. split; [exact Hn|].
+  destruct t as [pid dpt cpt].
+  pose proof (apply_patch_refines pa_heap pa_G pa_doc pid dpt cpt true pa_MInv Hn Hnt) as H. unfold apply_post in H.
+  destruct (PatchDefs.apply_patch (reify (h_str pa_heap) pa_doc) (reify (h_str pa_heap) (T pid dpt cpt)) true) as [[[st doc'] pt']| |]; [|done|done].
+  intros H6 H8. destruct (H H6 H8) as (h' & docT & E & I' & _ & Hre & _ & _ & NL & _).
+  exists h', docT. split; [exact E|]. split; [exact I'|]. split; [exact Hre|]. apply NL, heap_of_forest_NoLeak.
 Qed.
